@@ -28,7 +28,7 @@ CLAIMED = {
    note="The cursor may be anywhere inside the visible rows. Checking stops at the first ResizeTerminal action of a run.",
    tech="deterministic simulation: per-byte geometry invariant under line faults"),
  "C10": dict(cat="exploration", ref="DESIGN.md §3 C10 (as built)",
-   text="A monitor inside terminal sessions (fill-rectangle code points incl. surrogates and > U+10FFFF, text and hex macros whose pairs spell well-formed, surrogate, out-of-range, overlong and broken UTF-8 units in closed and open repeat groups, OSC strings, font payloads of 0..2^17 glyphs) and on every successful load of damaged files, fonts and clipboard payloads (disk faults, clipboard record faults, and faults applied inside the IcyDraw framing incl. a structure-aware one that sets a cell's 32-bit character field to values at the edges of the scalar range): every cell of every layer holds a Unicode scalar value, every glyph-table key of every font is one, and every engine-built string (layer titles, font names, SAUCE strings, hyperlink URLs, pending parser strings, stored macro bodies) is valid UTF-8.",
+   text="A monitor inside terminal sessions (fill-rectangle code points incl. surrogates and > U+10FFFF, text and hex macros whose pairs spell well-formed, surrogate, out-of-range, overlong and broken UTF-8 units in closed and open repeat groups, OSC strings, font payloads of 0..2^17 glyphs) (one C10 run in sixteen is a RIP session with mouse regions and buttons; characters are also handed over as characters, not bytes; a quarter of the sessions start from a buffer with all rows allocated) and on every successful load of damaged files, fonts and clipboard payloads (disk faults, clipboard record faults, and faults applied inside the IcyDraw framing incl. a structure-aware one that sets a cell's 32-bit character field to values at the edges of the scalar range): every cell of every layer holds a Unicode scalar value, every glyph-table key of every font is one, and every engine-built string (layer titles, font names, SAUCE strings, hyperlink URLs, pending parser strings, stored macro bodies, the text of detected hyperlinks and of cell runs, host commands of RIP mouse fields) is valid UTF-8.",
    note="An invalid char is observed numerically after the fact (release profile). Scans after a control function cover the visible rows; periodic scans and the end-of-stream scan cover the whole scrollback. Stored macro bodies are read through a guarded read-only accessor.",
    tech="deterministic simulation: post-event scalar-value monitor under line, disk, clipboard and in-framing faults"),
  "C14": dict(cat="exploration", ref="DESIGN.md §3 C14",
